@@ -176,11 +176,11 @@ Proof.
 Qed.
 
 (* a compression pointer as terminator (not reached through another pointer) *)
-Lemma pn_pointer f pre hi lo post st target ls2 a2 s2 :
+Lemma pn_pointer f pre hi lo post st target ls2 a2 s2 fl :
   hi < 64 -> lo < 256 -> target = N.to_nat (hi * 256 + lo) ->
   (target < length pre)%nat -> In target st ->
   parse_name f (pre ++ (192 + hi) :: lo :: post) st target true = Some (ls2, a2, s2) ->
-  parse_name (S f) (pre ++ (192 + hi) :: lo :: post) st (length pre) false = Some (ls2, (length pre + 2)%nat, []).
+  parse_name (S f) (pre ++ (192 + hi) :: lo :: post) st (length pre) fl = Some (ls2, (length pre + 2)%nat, []).
 Proof.
   intros Hhi Hlo Ht Hlt Hin H. cbn [parse_name]. rewrite nthb_app0.
   destruct (192 + hi =? 0) eqn:E0; [lia|].
@@ -291,21 +291,22 @@ Qed.
 
 (* message = a ++ enc_name lt ++ b ++ enc_labels l0 ++ pointer(length a) ++ post :
    the name read at the start of l0 is l0 ++ lt *)
-Lemma pname_labels_ptr a lt b l0 hi lo post st :
+Lemma pn_labels_ptr a lt b l0 hi lo post st fl :
   let pre := a ++ enc_name lt ++ b in
   let m := pre ++ enc_labels l0 ++ (192 + hi) :: lo :: post in
   hi < 64 -> lo < 256 -> N.of_nat (length a) = hi * 256 + lo ->
-  In (length a) st -> lens_ok lt -> lens_ok l0 -> (wire_len (l0 ++ lt) <= 255)%nat ->
-  pname m st (length pre) = Some (l0 ++ lt, (length pre + length (enc_labels l0) + 2)%nat, offsets (length pre) l0).
+  In (length a) st -> lens_ok lt -> lens_ok l0 ->
+  parse_name (length l0 + S (length lt + 1)) m st (length pre) fl =
+    Some (l0 ++ lt, (length pre + length (enc_labels l0) + 2)%nat, if fl then [] else offsets (length pre) l0).
 Proof.
-  intros pre m Hhi Hlo Ha Hin Hlt Hl0 Hw.
+  intros pre m Hhi Hlo Ha Hin Hlt Hl0.
   assert (Hlen : (length a + wire_len lt <= length pre)%nat).
   { unfold pre. rewrite !app_length, enc_name_length. lia. }
   (* the target name, read through the pointer *)
   assert (Ht : parse_name (length lt + 1) m st (length a) true = Some (lt, (length a + wire_len lt)%nat, [])).
   { unfold m, pre. rewrite <- !app_assoc. apply (pn_plain lt 0 a _ st true Hlt). }
   (* the pointer itself *)
-  assert (Hp : parse_name (S (length lt + 1)) m st (length pre + length (enc_labels l0)) false =
+  assert (Hp : parse_name (S (length lt + 1)) m st (length pre + length (enc_labels l0)) fl =
                Some (lt, (length pre + length (enc_labels l0) + 2)%nat, [])).
   { unfold m. replace (pre ++ enc_labels l0 ++ (192 + hi) :: lo :: post) with ((pre ++ enc_labels l0) ++ (192 + hi) :: lo :: post)
       by (rewrite <- app_assoc; reflexivity).
@@ -314,8 +315,19 @@ Proof.
     - lia.
     - rewrite app_length. pose proof (wire_len_ge_length lt). lia.
     - unfold m in Ht. rewrite <- app_assoc. exact Ht. }
-  pose proof (pn_labels l0 _ pre _ st false lt _ [] Hl0 Hp) as H.
-  rewrite app_nil_r in H.
+  pose proof (pn_labels l0 _ pre _ st fl lt _ [] Hl0 Hp) as H.
+  rewrite app_nil_r in H. destruct fl; exact H.
+Qed.
+
+Lemma pname_labels_ptr a lt b l0 hi lo post st :
+  let pre := a ++ enc_name lt ++ b in
+  let m := pre ++ enc_labels l0 ++ (192 + hi) :: lo :: post in
+  hi < 64 -> lo < 256 -> N.of_nat (length a) = hi * 256 + lo ->
+  In (length a) st -> lens_ok lt -> lens_ok l0 -> (wire_len (l0 ++ lt) <= 255)%nat ->
+  pname m st (length pre) = Some (l0 ++ lt, (length pre + length (enc_labels l0) + 2)%nat, offsets (length pre) l0).
+Proof.
+  intros pre m Hhi Hlo Ha Hin Hlt Hl0 Hw.
+  pose proof (pn_labels_ptr a lt b l0 hi lo post st false Hhi Hlo Ha Hin Hlt Hl0) as H. cbv zeta in H.
   apply (pname_of_parse _ _ _ _ _ _ _ H); [|exact Hw].
   unfold m, pre. rewrite !app_length, enc_name_length. cbn [length].
   pose proof (wire_len_ge_length lt). pose proof (wire_len_ge_length l0). pose proof (enc_labels_length l0). lia.
@@ -423,6 +435,7 @@ Definition opaque_type (ty : N) : Prop :=
 Inductive rd_shape : N -> list N -> option (list (list N)) -> Prop :=
 | rs_opaque ty rd : opaque_type ty -> rd_shape ty rd None
 | rs_txt rd : txt_tiled (S (length rd)) rd = true -> (1 <= length rd)%nat -> rd_shape 16 rd None
+| rs_a rd : length rd = 4%nat -> rd_shape 1 rd None
 | rs_name ty pfx rl : name_prefix_len ty = Some (length pfx) -> lens_ok rl -> (wire_len rl <= 255)%nat ->
                       rd_shape ty (pfx ++ enc_name rl) (Some rl).
 
@@ -434,13 +447,14 @@ Lemma rr_tail_shape ty rd rdn pre post starts1 owner cl ttl :
   exists st, rr_tail (pre ++ rd ++ post) starts1 (length pre) (length rd) owner ty cl ttl rd =
              Some (mk_rr owner ty cl ttl rd rdn, (length pre + length rd)%nat, st ++ starts1).
 Proof.
-  intros Hs. destruct Hs as [ty rd [H5 [H2 [H15 [H33 [H16 [H1 H41]]]]]]|rd Ht Hl|ty pfx rl Hp Hok Hw].
+  intros Hs. destruct Hs as [ty rd [H5 [H2 [H15 [H33 [H16 [H1 H41]]]]]]|rd Ht Hl|rd Hl4|ty pfx rl Hp Hok Hw].
   - exists []. unfold rr_tail.
     destruct (ty =? 5) eqn:E5; [lia|]. destruct (ty =? 2) eqn:E2; [lia|]. destruct (ty =? 15) eqn:E15; [lia|].
     destruct (ty =? 33) eqn:E33; [lia|]. destruct (ty =? 16) eqn:E16; [lia|]. destruct (ty =? 1) eqn:E1; [lia|].
     destruct (ty =? 41) eqn:E41; [lia|]. reflexivity.
   - exists []. unfold rr_tail. cbn [N.eqb Pos.eqb orb]. rewrite Ht.
     destruct (1 <=? length rd)%nat eqn:E; [reflexivity|apply Nat.leb_gt in E; lia].
+  - exists []. unfold rr_tail. cbn [N.eqb Pos.eqb orb]. rewrite Hl4. reflexivity.
   - exists (offsets (length pre + length pfx) rl).
     assert (Hn : pname (pre ++ (pfx ++ enc_name rl) ++ post) starts1 (length pre + length pfx) =
                  Some (rl, (length pre + length pfx + wire_len rl)%nat, offsets (length pre + length pfx) rl)).
